@@ -61,6 +61,7 @@ class World:
         self.next_mid = 0; self.files = {}; self.nh = 0
         self.funcs = {}         # (prog, name) -> Func
         self.order = {}         # prog -> [Func]
+        self.frags = {}         # prog -> shared fragment header (a run of simple statements included in several places)
         self.inherit = {}       # prog -> parent prog or None
         self.fpvars = {}        # prog -> count of function variables
         self.big_pad = False
@@ -105,6 +106,10 @@ class World:
             if rng.random() < 0.07 and self.nboom < 2:
                 self.nboom += 1
                 body.append(Stmt('boom', how=rng.choice(('div', 'error', 'index', 'undef')), multi=rng.random() < 0.3))
+            elif r < 0.05:
+                # a fragment header shared by several places of the same program: the second inclusion starts at line 1 again
+                fr = self.frags.setdefault(f.prog, {'body': [Stmt('simple', multi=rng.random() < 0.3) for _ in range(rng.randint(1, 3))], 'header': None})
+                body.append(Stmt('frag', frag=fr))
             elif r < 0.28 or (not cal and r < 0.55):
                 body.append(Stmt('simple', multi=rng.random() < 0.3))
             elif r < 0.36:
@@ -238,6 +243,15 @@ class World:
             s.ret.expr = 'a'
             self.emit_stmt(em, f, s.ret, ind + '    ')
             s.hi = s.end = em.put(ind + '};')
+        elif s.kind == 'frag':
+            fr = s.frag
+            if fr['header'] is None:
+                h = self.new_header(); fr['header'] = h
+                self.pad(h, 0, 3)
+                for t in fr['body']:
+                    self.emit_stmt(h, f, t, ind)
+                    if rng.random() < 0.4: self.pad(h, 0, 2)
+            s.lo = s.hi = s.end = em.put('#include "/%s"' % fr['header'].name)
         else:
             raise AssertionError(s.kind)
 
@@ -388,6 +402,8 @@ class World:
     def exec_stmt(self, s, f, objprog):
         if s.kind in ('simple', 'long', 'litdef', 'anondef', 'ret', 'inc'):
             self.seg(s.mid, s.file, s.lo, s.hi)
+        elif s.kind == 'frag':
+            self.exec_body(s.frag['body'], f, objprog)
         elif s.kind == 'boom':
             self.seg(s.mid, s.file, s.lo, s.hi)
             self.natural.append(len(self.segs) - 1)
